@@ -37,7 +37,8 @@ pub fn handle(op: &str, a: &[&str]) -> Option<Resp> {
         ("deb.readbytes", [t]) => {
             let bytes = dbytes(t)?;
             let valid = std::str::from_utf8(&bytes).is_ok();
-            let strict = match Deb822::read(&bytes[..]) {
+            let strict_r = Deb822::read(&bytes[..]);
+            let strict = match &strict_r {
                 Ok(_) => "ok",
                 Err(deb822_lossless::Error::IoError(_)) => "io",
                 Err(_) => "err",
@@ -59,7 +60,15 @@ pub fn handle(op: &str, a: &[&str]) -> Option<Resp> {
                     } else if (strict == "ok") != errs.is_empty() {
                         fail = Some("read(bytes).is_ok() != read_relaxed errors.is_empty()".to_string());
                     }
-                    format!("ok x{} {} {}", hex(printed.as_bytes()), errs.len(), strict)
+                    // `Error::ParseError(e)` displays as `e` (lossless.rs:73)
+                    let payload = match &strict_r {
+                        Err(deb822_lossless::Error::ParseError(e)) => if e.to_string() == render_errors(&errs) { "eq" } else { "ne" },
+                        _ => "-",
+                    };
+                    if fail.is_none() && strict == "err" && (payload != "eq" || errs.is_empty()) {
+                        fail = Some("read(bytes) = Err(ParseError(l)) with l not the non-empty error list of read_relaxed(bytes)".to_string());
+                    }
+                    format!("ok x{} {} {} {} payload={}", hex(printed.as_bytes()), errs.len(), strict, es(&errs.join("\n")), payload)
                 }
             };
             if (strict == "io") == valid && fail.is_none() {
@@ -76,11 +85,23 @@ pub fn handle(op: &str, a: &[&str]) -> Option<Resp> {
                 Ok(d) => format!("ok:{}", es(&d.to_string())),
                 Err(_) => "err".to_string(),
             };
+            // the messages themselves, and whether the strict reader's `Err(ParseError(list))` is the
+            // tolerant reader's list (the field is private: `Display` writes every message followed
+            // by `\n`, lossless.rs:49-56; no message contains a line feed)
+            let msgs = errs.join("\n");
+            let payload = match &strict {
+                Ok(_) => "-",
+                Err(e) => if e.to_string() == render_errors(&errs) { "eq" } else { "ne" },
+            };
             let mut fail = None;
             if printed != s {
                 fail = Some("from_str_relaxed(s).to_string() != s".to_string());
             } else if strict.is_ok() != errs.is_empty() {
                 fail = Some("strict.is_ok() != relaxed errors.is_empty()".to_string());
+            } else if strict.is_err() && (payload != "eq" || errs.is_empty()) {
+                fail = Some("from_str(s) = Err(ParseError(l)) with l not the non-empty error list of from_str_relaxed(s)".to_string());
+            } else if errs.iter().any(|m| m.contains('\n')) {
+                fail = Some("an error message contains a line feed".to_string());
             } else if let Ok(d2) = &strict {
                 if d2.to_string() != s {
                     fail = Some("from_str(s).to_string() != s".to_string());
@@ -213,7 +234,7 @@ pub fn handle(op: &str, a: &[&str]) -> Option<Resp> {
                 }
             }
             Some(Resp::with(
-                format!("{} {} {} {}", es(&printed), errs.len(), strict_s, dump_deb(&d)),
+                format!("{} {} {} {} {} payload={}", es(&printed), errs.len(), strict_s, dump_deb(&d), es(&msgs), payload),
                 fail,
             ))
         }
@@ -268,6 +289,11 @@ pub fn handle(op: &str, a: &[&str]) -> Option<Resp> {
         }
         _ => None,
     }
+}
+
+/// `ParseError::to_string()` of a message list: every message followed by a line feed
+fn render_errors(errs: &[String]) -> String {
+    errs.iter().map(|m| format!("{}\n", m)).collect()
 }
 
 /// ASCII letters with their case swapped (field names are compared exactly: `get("source")` must
@@ -423,6 +449,23 @@ pub fn enc_items(items: &[(String, String)]) -> String {
 
 /// representatives of the lexer's character classes
 pub const ALPHABET: [&str; 12] = ["a", "-", ":", "#", " ", "\t", "\n", "\r", "é", "😀", "\u{1}", "~"];
+
+/// the EDGES of the lexer's character ranges (audit C01 W5; seeded change C03-r7m1: a key-character
+/// range with exclusive upper bounds that drops `9` and `~`): `!` (0x21, first graphic character),
+/// `9` and `;` (the neighbours of `:`), DEL (0x7f, first character after `~`, not graphic), U+0080
+/// (first non-ASCII character, a 2-byte C1 control), VT (0x0b, between the indent TAB 0x09 / the
+/// line end LF 0x0a and the line end CR 0x0d; white space for Unicode, neither indent nor line end
+/// here). `~` (0x7e, last graphic character) is in `ALPHABET`. `ALPHABET` itself is left as it is:
+/// the generators of C02, C06, C07 and the changes codec enumerate over it to their own lengths.
+pub const EDGE_CHARS: [&str; 6] = ["!", "9", ";", "\u{7f}", "\u{80}", "\u{b}"];
+
+/// every string of length <= `max` over `ALPHABET` + `EDGE_CHARS` (18 classes) that contains at
+/// least one edge character (the others are in `strings_upto(&ALPHABET, ..)` already)
+pub fn edge_texts(max: usize) -> Vec<String> {
+    let mut all: Vec<&str> = ALPHABET.to_vec();
+    all.extend(EDGE_CHARS.iter());
+    strings_upto(&all, max).into_iter().filter(|t| EDGE_CHARS.iter().any(|e| t.contains(e))).collect()
+}
 
 /// characters a "lenient" rewrite is likely to special-case: BOM, Unicode white space other than
 /// space/tab (NBSP, ideographic space, VT, FF, NEL, LINE SEPARATOR), NUL, DEL
@@ -795,8 +838,23 @@ pub fn block_boundary_docs() -> Vec<String> {
     v
 }
 
+/// texts whose exact message lists are closed `example`s of Props/C01Msgs.lean and Props/C01More.lean
+/// (all three message forms, `Some(KIND)` / `None`, a byte order mark, CR LF line ends)
+pub const MSG_TEXTS: [&str; 12] = [
+    "é\nA: b\n", "A b\n", "é", "A b\nC d\n", "\u{feff}A: b\n", "A: b\r\nC: d\r\n", "A b\r\nC: d\r\n", "# c\nx",
+    "ééé", "A: b\n c\n\n#x\nD: e", "A", "A: b\n",
+];
+
 pub fn generate_c01(tier: &str, seed: u64, out: &mut Out) {
+    for t in MSG_TEXTS.iter() {
+        out.req("deb.read", &[es(t)]);
+        out.req("deb.readbytes", &[es(t)]);
+    }
     for t in gen_texts(tier, seed) {
+        out.req("deb.read", &[es(&t)]);
+    }
+    // complete enumeration one character shorter over the 18 classes with the range edges
+    for t in edge_texts(if tier == "thorough" { 5 } else { 4 }) {
         out.req("deb.read", &[es(&t)]);
     }
     // raw byte inputs: valid texts and every way of breaking UTF-8 (truncated sequences, stray
